@@ -1,2 +1,90 @@
-/-! Driver for C23 (stub: not built yet). -/
-def main : IO Unit := pure ()
+import Drivers.Proto
+import PymocaVerif.Model.Index
+/-! Driver for C23: `index.outcome` evaluates the `Index` model on one case
+    (dimensions, subscripts as written, optional loop range, the checks the tree contains). -/
+open Lean Drivers PymocaVerif.Index
+
+def parseIntS (j : Json) : Except String IntS := do
+  let a ← j.getArr?
+  let kind ← (a[0]?.getD Json.null).getStr?
+  let v ← (a[1]?.getD Json.null).getInt?
+  match kind with
+  | "lit" => if v < 0 then throw "lit<0" else pure (.lit v.toNat)
+  | "neg" => if v < 0 then throw "neg<0" else pure (.neg v.toNat)
+  | "par" => pure (.par v)
+  | k => throw s!"bad-int {k}"
+
+def parseNatS (j : Json) : Except String NatS := do
+  match ← parseIntS j with
+  | .lit k => pure (.lit k)
+  | .neg k => pure (.neg k)
+  | .par v => if v < 0 then throw "unmodelled: negative step through a parameter" else pure (.par v.toNat)
+
+inductive AnySub where
+  | fixed (f : FSub)
+  | loop (mul off : Int)
+
+def parseSub (j : Json) : Except String AnySub := do
+  let a ← j.getArr?
+  let kind ← (a[0]?.getD Json.null).getStr?
+  match kind with
+  | "idx" => pure (.fixed (.idx (← parseIntS (a[1]?.getD Json.null))))
+  | "range" => pure (.fixed (.range (← parseIntS (a[1]?.getD Json.null)) (← parseIntS (a[2]?.getD Json.null))))
+  | "range3" =>
+    pure (.fixed (.range3 (← parseIntS (a[1]?.getD Json.null)) (← parseNatS (a[2]?.getD Json.null))
+      (← parseNatS (a[3]?.getD Json.null))))
+  | "all" => pure (.fixed .all)
+  | "loop" => pure (.loop (← (a[1]?.getD Json.null).getInt?) (← (a[2]?.getD Json.null).getInt?))
+  | k => throw s!"bad-sub {k}"
+
+def toSubs : List AnySub → Except String Subs
+  | [.fixed a] => pure (.f1 a)
+  | [.loop m o] => pure (.l1 m o)
+  | [.fixed a, .fixed b] => pure (.ff a b)
+  | [.loop m o, .fixed b] => pure (.lf m o b)
+  | [.fixed a, .loop m o] => pure (.fl a m o)
+  | [.loop _ _, .loop _ _] => throw "unmodelled: two loop-dependent subscripts"
+  | [] => throw "no subscript"
+  | _ => pure .more
+
+def toDims : List Nat → Except String Dims
+  | [] => pure .scalar
+  | [n] => pure (.d1 n)
+  | [n, m] => pure (.d2 n m)
+  | _ => throw "unmodelled: more than two dimensions"
+
+def parseLoop (j : Json) : Except String (Option LoopRange) := do
+  if j.isNull then return none
+  let a ← j.getArr?
+  match a.toList with
+  | [x, y] => pure (some (.two (← parseIntS x) (← parseIntS y)))
+  | [x, y, z] => pure (some (.three (← parseIntS x) (← parseNatS y) (← parseNatS z)))
+  | _ => throw "bad-loop"
+
+def posJson (p : Pos) : Json := Json.arr #[Json.num (p.1 : Int), Json.num (p.2 : Int)]
+
+/-- sorted multiset of all entries in one row (the `sum` context keeps no order) -/
+def sumRows (rows : List (List Pos)) : List (List Pos) :=
+  let all := rows.flatten
+  if all.isEmpty then [] else
+  [(all.toArray.qsort (fun a b => a.1 < b.1 || (a.1 == b.1 && a.2 < b.2))).toList]
+
+def handle (req : Json) : Except String Json := do
+  let op ← getStr req "op"
+  match op with
+  | "index.outcome" => do
+    let cj ← getObj req "cfg"
+    let cfg : Cfg := ⟨← getBool cj "sliceCheck", ← getBool cj "loopCheck", ← getBool cj "stepOrder"⟩
+    let dims ← toDims (← (← getArr req "dims").toList.mapM (·.getNat?))
+    let subs ← toSubs (← (← getArr req "subs").toList.mapM parseSub)
+    let loop ← parseLoop ((req.getObjVal? "loop").toOption.getD Json.null)
+    let isSum := (req.getObjValAs? Bool "sum").toOption.getD false
+    match outcome cfg ⟨dims, subs, loop⟩ with
+    | none => pure (Json.mkObj [("ok", true), ("outcome", "error")])
+    | some rows =>
+      let rows := if isSum then sumRows rows else rows
+      pure (Json.mkObj [("ok", true), ("outcome", "sel"),
+        ("rows", Json.arr (rows.map (fun r => Json.arr (r.map posJson).toArray)).toArray)])
+  | o => throw s!"unknown-op {o}"
+
+def main : IO Unit := serve handle
